@@ -82,6 +82,15 @@ func checkC20(c *Ctx) error {
 			}
 			conf.Services = append(conf.Services, v, h)
 		}
+		// services without a scope of their own that reach a contextual service only through a !tagged argument, a decorator
+		// argument, a field or a call argument, each with a typed getter: they are contextual, also through the getter
+		conf.Services = append(conf.Services,
+			cfg.Service{Name: "ctxdep", Constructor: cfg.P(`"fixt/pa".New`), Scope: cfg.P("contextual"), Tags: []cfg.Tag{{Name: "ctxdeptag"}}},
+			cfg.Service{Name: "viaTagged", Constructor: cfg.P(`"fixt/pa".New`), Args: []cfg.Val{cfg.Str("!tagged ctxdeptag")}, Getter: cfg.P("GetViaTagged"), Type: cfg.P(`*"fixt/pa".Obj`)},
+			cfg.Service{Name: "viaDecorator", Constructor: cfg.P(`"fixt/pa".New`), Tags: []cfg.Tag{{Name: "ctxdectag"}}, Getter: cfg.P("GetViaDecorator"), Type: cfg.P(`*"fixt/pa".Obj`)},
+			cfg.Service{Name: "viaField", Constructor: cfg.P(`"fixt/pa".New`), Fields: []cfg.KV{{K: "F1", V: cfg.Str("@ctxdep")}}, Getter: cfg.P("GetViaField"), Type: cfg.P(`*"fixt/pa".Obj`), MustGetter: cfg.P(true)},
+			cfg.Service{Name: "viaCall", Constructor: cfg.P(`"fixt/pa".New`), Calls: []cfg.Call{{Method: "Set", Args: []cfg.Val{cfg.Str("@viaTagged")}}}, Getter: cfg.P("GetViaCall"), Type: cfg.P(`*"fixt/pa".Obj`)})
+		conf.Decorators = append(conf.Decorators, cfg.Decorator{Tag: "ctxdectag", Decorator: `"fixt/pa".DecSame`, Args: []cfg.Val{cfg.Str("@ctxdep")}})
 		// operation alphabet of this configuration
 		var alpha []probe.Op
 		for _, s := range conf.Services {
@@ -90,7 +99,12 @@ func checkC20(c *Ctx) error {
 				alpha = append(alpha, probe.Op{Op: "getctx", Name: s.Name, Ctx: k})
 			}
 			if s.Getter != nil && !s.IsTodo() {
-				alpha = append(alpha, probe.Op{Op: "getter", Name: *s.Getter}, probe.Op{Op: "getterctx", Name: *s.Getter + "InContext", Ctx: 1 + r.Intn(G/4)})
+				alpha = append(alpha, probe.Op{Op: "getter", Name: *s.Getter})
+				// every typed accessor is used from several contexts (what it hands out in one context must never show up in another)
+				for k := 1; k <= G/4; k += G / 8 {
+					alpha = append(alpha, probe.Op{Op: "getterctx", Name: *s.Getter + "InContext", Ctx: k})
+				}
+				alpha = append(alpha, probe.Op{Op: "getterctx", Name: *s.Getter + "InContext", Ctx: 1 + r.Intn(G/4)})
 			}
 		}
 		for _, p := range conf.Params {
